@@ -178,7 +178,22 @@ func main() {
 				return byName[id.Name] // unresolved in the file scope: a package-level name of another file
 			}
 			for _, fn := range fnames {
+				// writes inside func init() happen before any goroutine of the program can use the package
+				inInit := map[ast.Node]bool{}
+				for _, d := range p.Files[fn].Decls {
+					if fd, ok := d.(*ast.FuncDecl); ok && fd.Recv == nil && fd.Name.Name == "init" && fd.Body != nil {
+						ast.Inspect(fd.Body, func(n ast.Node) bool {
+							if n != nil {
+								inInit[n] = true
+							}
+							return true
+						})
+					}
+				}
 				ast.Inspect(p.Files[fn], func(n ast.Node) bool {
+					if n != nil && inInit[n] {
+						return true
+					}
 					note := func(vi *varInfo, what string, pos token.Pos) {
 						vi.where = append(vi.where, fmt.Sprintf("%s %s", what, fset.Position(pos)))
 					}
